@@ -5,6 +5,6 @@ CONSTANT FailKinds = {"none", "call", "load"}
 CONSTANT ForceMulti = {TRUE}
 CONSTANT SepExit = TRUE
 CONSTANT Mutant = "none"
-CONSTANT KeepHist = FALSE
+CONSTANT KeepHist = "none"
 PROPERTY Terminates
 CHECK_DEADLOCK TRUE
